@@ -198,6 +198,28 @@ def run_case(job):
         return dict(status=status, out_files=len(outs), records=nrec, request=rq, fault=eff)
 
 
+def run_plugin_missing(sc):
+    """A valid run with the IBM plug-in given by path; then the plug-in file is removed and the same set-up is
+    started again in the same process: a missing file must stop the second run at start-up."""
+    use_repo()
+    with lab.scratch() as d:
+        conf = scen.write(sc, d)
+        with open(d / "ladim.yaml", "w") as f:
+            yaml.safe_dump(conf, f)
+        first = lab.run(str(d / "ladim.yaml"), d)
+        for f in glob.glob(str(Path(d) / "out*.nc")):
+            os.remove(f)
+        os.remove(conf["ibm"]["module"])
+        second = lab.run(str(d / "ladim.yaml"), d)
+        nrec = 0
+        for f in glob.glob(str(Path(d) / "out*.nc")):
+            try:
+                nrec += len(lab.read_out(f)["time"])
+            except Exception:  # noqa: BLE001
+                pass
+        return dict(first=first, second=second, records=nrec)
+
+
 def run(ctx: Ctx):
     use_repo()
     bs = bases(ctx.seed + 1)
@@ -230,3 +252,15 @@ def run(ctx: Ctx):
                 ctx.violation("tie-broken", "fault", case, dict(implementation=g["status"], model=w, correspondence="kind of stop at start-up (exit code / exception class)"))
             elif g["out_files"] > 0:
                 ctx.violation("tie-broken", "fault", case, dict(implementation=g["status"], out_files=g["out_files"], correspondence="Output is constructed last: no file exists after a refusal"))
+
+    # ---- a plug-in file that has disappeared since an earlier run of the same process
+    pres = pmap(run_plugin_missing, bs)
+    for sc, g in zip(bs, pres):
+        case = dict(fault="plugin_file_removed_between_two_runs", base=dict(rev=sc["rev"], continuous=sc["continuous"], seed=sc["seed"]))
+        ctx.case("plugin-missing", [sc["seed"]], sample=dict(case, result=g), nontrivial=True)
+        if g["first"] != "ok":
+            ctx.violation("tie-broken", "plugin-missing", case, dict(first_run=g["first"])); continue
+        if g["second"] == "ok" or g["records"] > 0:
+            ctx.violation("failing-input", "plugin-missing", case, dict(second_run=g["second"], records=g["records"],
+                          note="the IBM module file named in the configuration does not exist any more; the run must stop at start-up and write no record",
+                          theorem="Ladim.C20.refuses_missing_files_sections"), tags=dict(first="not-refused", fault="plugin_file_removed"))
